@@ -336,19 +336,19 @@ func cfgOfDump(d stackage.VerifState, isCond bool) Cfg {
 	return c
 }
 
-func describeStack(s stackage.Stack, form string) V {
+func rvDescribeStack(s stackage.Stack, form string) V {
 	if s.IsZero() {
 		return V{T: 'Z', Form: form}
 	}
 	d := stackage.VerifDump(s)
 	v := V{T: 'K', Form: form, Cfg: cfgOfDump(d, false)}
 	for _, e := range d.Elems {
-		v.Xs = append(v.Xs, Describe(e))
+		v.Xs = append(v.Xs, rvDescribe(e))
 	}
 	return v
 }
 
-func describeCond(c stackage.Condition, form string) V {
+func rvDescribeCond(c stackage.Condition, form string) V {
 	if c.IsZero() {
 		return V{T: 'Y', Form: form}
 	}
@@ -358,35 +358,35 @@ func describeCond(c stackage.Condition, form string) V {
 	if len(d.Elems) > 0 {
 		ex = d.Elems[0]
 	}
-	v.Xs = []V{Describe(ex)}
+	v.Xs = []V{rvDescribe(ex)}
 	return v
 }
 
 // Describe reads a real value back into a value literal: kinds, option bits, forms,
 // leaves, condition keyword / operator — structurally, through VerifDump (raw slots).
-func Describe(x any) V {
+func rvDescribe(x any) V {
 	switch tv := x.(type) {
 	case nil:
 		return V{T: 'N'}
 	case stackage.Stack:
-		return describeStack(tv, "n")
+		return rvDescribeStack(tv, "n")
 	case AStack:
-		return describeStack(stackage.Stack(tv), "a")
+		return rvDescribeStack(stackage.Stack(tv), "a")
 	case SStack:
-		return describeStack(stackage.Stack(tv), "as")
+		return rvDescribeStack(stackage.Stack(tv), "as")
 	case *AStack:
 		if tv != nil {
-			return describeStack(stackage.Stack(*tv), "p")
+			return rvDescribeStack(stackage.Stack(*tv), "p")
 		}
 	case stackage.Condition:
-		return describeCond(tv, "n")
+		return rvDescribeCond(tv, "n")
 	case ACond:
-		return describeCond(stackage.Condition(tv), "a")
+		return rvDescribeCond(stackage.Condition(tv), "a")
 	case SCond:
-		return describeCond(stackage.Condition(tv), "as")
+		return rvDescribeCond(stackage.Condition(tv), "as")
 	case *ACond:
 		if tv != nil {
-			return describeCond(stackage.Condition(*tv), "p")
+			return rvDescribeCond(stackage.Condition(*tv), "p")
 		}
 	case *stackage.Stack:
 		if tv == nil {
@@ -401,7 +401,7 @@ func Describe(x any) V {
 	case []any:
 		v := V{T: 'A'}
 		for _, e := range tv {
-			v.Xs = append(v.Xs, Describe(e))
+			v.Xs = append(v.Xs, rvDescribe(e))
 		}
 		return v
 	}
@@ -586,7 +586,7 @@ func revealTimeout() time.Duration {
 func runRevealTree(payload string) string {
 	v := parseRevealPayload(payload)
 	root := BuildStack(v)
-	before := Describe(root)
+	before := rvDescribe(root)
 	if before.String() != v.String() {
 		return "BADBUILD " + before.String()
 	}
@@ -630,6 +630,6 @@ func runRevealTree(payload string) string {
 	mu.Lock()
 	x := joinOrDash(locks)
 	mu.Unlock()
-	after := Describe(root)
+	after := rvDescribe(root)
 	return fmt.Sprintf("%s ; T %s ; X %s", specBlocks(before, after), after.String(), x)
 }
